@@ -188,7 +188,7 @@ def check(cx):
                          loc=cx.loc(e.node))
         want = sym.mk_ite(is_some(REASON), ('fmt', ('PART ', ('arg', 0), ' :', ('arg', 1)), c, ('some_of', REASON)),
                           ('fmt', ('PART ', ('arg', 0)), c))
-        if s['payload'] != want or s['source'] != CONN_SOURCE:
+        if not same_term(s['payload'], want, e.pc) or s['source'] != CONN_SOURCE:
             r5.violation('process_part|line-shape', 'PART line is not ":<user> PART <channel>[ :<reason>]"', loc=cx.loc(e.node),
                          found=show_term(s['payload'])[:160])
     reps = replies(wp)
